@@ -96,6 +96,22 @@ CLAIMED["C11"] = dict(
     technique="Lean 4 theorems over the mode dispatch + regenerated mode tables (decide) + differential correspondence with byte hashes",
     design="7 C11")
 
+CLAIMED["C05"] = dict(
+    text="validFile (EmdModel/Valid.lean) is a decidable transcription of the layout the statement lists. Kernel-checked: "
+         "validGroup_encode — the encoding of ANY well-formed tree with valid node bodies is a valid EMD group (tags from the "
+         "vocabulary, class, tagged typed metadata bundle, Array data/units/dims, nothing untagged, no scratch group); "
+         "C05_new_file(+_save) — every save creating a file (whole tree or any partial selection, any session author/program) "
+         "writes a valid file; C05_append_new_tree and C05_union — appending a further tree and the whole-root append / append-over "
+         "of C09 (incl. the merged root metadata bundle, mdBody_ok) keep the file valid, so validity is an invariant of any sequence "
+         "of such saves; C05_detector — on a valid file the package's detector says EMD, the version query (1,0,0), and the version "
+         "helper accepts it.",
+    note="PARTIAL: (1) for targeted appends validity is checked by the correspondence only (independent h5py-only validator on the "
+         "real file vs. Lean validFile on the model file after every save of every history); (2) the per-class body validity "
+         "(infoOK) is a hypothesis at this level, discharged for the codecs in C02-C04; dim-vector lengths (2 or extent) are "
+         "checked by the Python validator only because data are opaque tokens in the tree-level model.",
+    technique="Lean 4 invariant proof over a decidable validator + differential correspondence against an independent h5py validator",
+    design="7 C05")
+
 NOT_YET = {}
 
 def main():
